@@ -37,6 +37,13 @@ Part 2  All remaining events, sharded with ``vt.par.run_shards``; one case = fre
     thorough = all 768.
     A transition on which the real store leaves everything the model admits (``Desync``) is reported and
     not continued.
+Part 4  Statement histories in ONE shell session: the ledger has two query directives ``twin-a`` / ``twin-b`` with
+    IDENTICAL text (a SELECT with a FROM filter and no CLOSE) and different dates, postings on both sides of
+    both dates; every sequence of length 1..3 over {``.run twin-a``, ``.run twin-b``, the same text typed}
+    (39 histories; thorough: also after ``.set format csv`` + ``.set numberify true``) is run on one shell and
+    EVERY step is compared: ``.run X`` == the text with ``CLOSE ON <date of X>``, typed == the text as is, all
+    computed through the API before the session starts.  Each session runs in a forked child so that it
+    neither sees nor leaves process-global state and replays alone.
 Part 3  ``beanquery.shell.main`` through ``click.testing.CliRunner`` (in process): the full product
     -f {text,csv} x -m x -o FILE/stdout x -q x {clean ledger, ledger with load errors} x {short, long
     option spelling} x {query with rows, empty result}.
@@ -71,8 +78,10 @@ Out of scope: interactive mode, pager, readline, history and init files (the she
 interactive=False, runinit=False; for main() INIT_FILENAME is blanked and HOME points to the temp dir).
 """
 import io
+import itertools
 import json
 import os
+import pickle
 import re
 import shlex
 import shutil
@@ -135,6 +144,8 @@ option "title" "C19 ledger"
 2020-01-31 query "undated" "SELECT account, sum(position) AS total FROM CLOSE GROUP BY account ORDER BY account"
 2020-02-10 query "undated-open" "SELECT account, sum(position) AS total FROM OPEN ON 2020-01-05 CLOSE CLEAR GROUP BY account ORDER BY account"
 2020-01-31 query "undated-filter" "SELECT account, sum(position) AS total FROM year = 2020 CLOSE GROUP BY account ORDER BY account"
+2020-01-31 query "twin-a" "SELECT date, account, position FROM flag = '*' ORDER BY date, account"
+2020-02-29 query "twin-b" "SELECT date, account, position FROM flag = '*' ORDER BY date, account"
 '''
 
 LEDGER_ERRORS = LEDGER + '''
@@ -147,6 +158,7 @@ LEDGER_ERRORS = LEDGER + '''
   Assets:Bank
 '''
 
+_TWIN = "SELECT date, account, position FROM flag = '*'%s ORDER BY date, account"
 _AGG = "SELECT account, sum(position) AS total FROM %s GROUP BY account ORDER BY account"
 
 # (kind, text): what is typed.  kind: select | balances | journal | print
@@ -164,6 +176,8 @@ STATEMENTS = [
     ('select', _AGG % "OPEN ON 2020-02-01 CLOSE"),
     ('select', _AGG % "CLOSE CLEAR"),
     ('select', _AGG % "year = 2020 CLOSE"),
+    # the very text of the named queries twin-a / twin-b (session histories, Part 4)
+    ('select', _TWIN % ""),
 ]
 # what a typed statement must NOT print: text -> [(fingerprint, other text)] (diagnosis + non-vacuity)
 STMT_NOT = {
@@ -171,6 +185,9 @@ STMT_NOT = {
     _AGG % "OPEN ON 2020-02-01 CLOSE": [('stmt:undated-close-dropped', _AGG % "OPEN ON 2020-02-01")],
     _AGG % "CLOSE CLEAR": [('stmt:undated-close-dropped', _AGG % "CLEAR")],
     _AGG % "year = 2020 CLOSE": [('stmt:undated-close-dropped', _AGG % "year = 2020")],
+    # a typed statement is never closed on the date of a named query that happens to have the same text
+    _TWIN % "": [('stmt:close-date-leaked-from-named-query', _TWIN % " CLOSE ON 2020-01-31"),
+                 ('stmt:close-date-leaked-from-named-query', _TWIN % " CLOSE ON 2020-02-29")],
 }
 
 # name -> (reading, admissible explicit texts; the first one is what the property prescribes where it does)
@@ -188,6 +205,9 @@ NAMED = {
     'undated': ('explicit', [_AGG % "CLOSE"]),
     'undated-open': ('explicit', [_AGG % "OPEN ON 2020-01-05 CLOSE CLEAR"]),
     'undated-filter': ('explicit', [_AGG % "year = 2020 CLOSE"]),
+    # two directives with IDENTICAL text and different dates: each is closed on its OWN date
+    'twin-a': ('default-close', [_TWIN % " CLOSE ON 2020-01-31"]),
+    'twin-b': ('default-close', [_TWIN % " CLOSE ON 2020-02-29"]),
     # no FROM clause at all: the property's "FROM clause names none" can be read both ways -> either
     'nofrom': ('either', [
         "SELECT date, payee, narration, position WHERE account ~ 'Food'",
@@ -201,6 +221,13 @@ NAMED = {
 NAMED_PLAIN = {
     'jan': "SELECT account, sum(position) AS total FROM year = 2020 GROUP BY account ORDER BY account",
     'cash-flow': "select date, account, position from account ~ 'Bank' where account ~ 'Bank' order by date, account",
+    'twin-a': _TWIN % "",
+    'twin-b': _TWIN % "",
+}
+# the result closed on the date of ANOTHER directive with the same text
+NAMED_OTHER_DATE = {
+    'twin-a': _TWIN % " CLOSE ON 2020-02-29",
+    'twin-b': _TWIN % " CLOSE ON 2020-01-31",
 }
 NAMED_OVERRIDDEN = {
     'closed': "SELECT account, sum(position) AS total FROM year = 2020 CLOSE ON 2020-03-31 GROUP BY account ORDER BY account",
@@ -759,6 +786,9 @@ class ShellProduct:
             plain = NAMED_PLAIN.get(name)
             if plain and w.render(plain, self.model) == observed:
                 return 'run:default-close-not-applied', ' (it is the result WITHOUT the default CLOSE ON <directive date>)'
+            other = NAMED_OTHER_DATE.get(name)
+            if other and w.render(other, self.model) == observed:
+                return 'run:close-date-of-another-query', ' (it is closed on the date of ANOTHER query directive with the same text)'
             over = NAMED_OVERRIDDEN.get(name)
             if over and w.render(over, self.model) == observed:
                 return 'run:explicit-close-overridden', ' (the explicit CLOSE ON was replaced by the directive date)'
@@ -874,6 +904,120 @@ def flush_reports(acc):
     for fp, (rank, what, case) in getattr(acc, 'best', {}).items():
         acc.add('violation-witnesses', (fp, rank, what, json.dumps(case, sort_keys=True)))
     acc.best = {}
+
+
+def session_events():
+    twin = next(i for i, (_, t) in enumerate(STATEMENTS) if t == _TWIN % "")
+    return [('run', '.run twin-a', 'twin-a', False), ('run', '.run twin-b', 'twin-b', False), ('stmt', _TWIN % "", twin)]
+
+
+def sessions(thorough):
+    """Part 4: every sequence of length 1..3 over {.run twin-a, .run twin-b, the same text typed} in ONE shell
+    session (after a settings prefix): 3 + 9 + 27 = 39 histories per prefix."""
+    evs = session_events()
+    prefixes = [()]
+    if thorough:
+        prefixes.append((ev_assign('format', 'csv'), ev_assign('numberify', 'true')))
+    out = []
+    for prefix in prefixes:
+        for n in (1, 2, 3):
+            for steps in itertools.product(evs, repeat=n):
+                out.append((prefix, steps))
+    return out
+
+
+def prime(evs):
+    """Compute the reference results of statement events BEFORE the shell under test runs anything (the reference
+    must not be exposed to whatever process-global state the shell may leave behind, e.g. in the parser)."""
+    w = world()
+    for ev in evs:
+        if ev[0] == 'stmt':
+            texts = [STATEMENTS[ev[2]][1]] + [o for _, o in STMT_NOT.get(STATEMENTS[ev[2]][1], ())]
+        elif ev[0] == 'run':
+            texts = list(NAMED[ev[2]][1]) + [d[ev[2]] for d in (NAMED_PLAIN, NAMED_OVERRIDDEN, NAMED_OTHER_DATE) if ev[2] in d]
+        elif ev[0] == 'print':
+            w.printed(STATEMENTS[ev[2]][1])
+            continue
+        else:
+            continue
+        for t in texts:
+            w.result(t)
+
+
+def run_session(prefix, steps):
+    """One shell, the prefix replayed, then every step applied WITH the full oracle.
+    -> (number of steps executed, [(step index, fingerprint, message)], outputs)."""
+    prime(steps)
+    p = ShellProduct()
+    for h in prefix:
+        p.replay_step(h)
+    found, outs = [], []
+    for k, ev in enumerate(steps):
+        try:
+            problems = p.apply(ev)
+        except Desync as d:
+            problems = [(d.fingerprint, d.message)]
+        outs.append(p.info.get('out', ''))
+        for fp, msg in problems:
+            found.append((k, fp, msg))
+        if problems:
+            break
+    return len(outs), found, outs
+
+
+def isolated(fn, *args):
+    """Run fn(*args) in a forked child and return its (picklable) result: a session must neither see nor leave
+    process-global state (parser caches, warning registries ...) of other cases, so that it replays alone."""
+    r, wfd = os.pipe()
+    pid = os.fork()
+    if pid == 0:
+        code = 0
+        try:
+            os.close(r)
+            try:
+                payload = pickle.dumps(('ok', fn(*args)))
+            except BaseException:       # noqa: BLE001
+                import traceback
+                payload = pickle.dumps(('error', traceback.format_exc()))
+            with os.fdopen(wfd, 'wb') as f:
+                f.write(payload)
+        except BaseException:           # noqa: BLE001
+            code = 1
+        finally:
+            os._exit(code)
+    os.close(wfd)
+    with os.fdopen(r, 'rb') as f:
+        data = f.read()
+    os.waitpid(pid, 0)
+    if not data:
+        raise RuntimeError('isolated session died without a result')
+    status, value = pickle.loads(data)
+    if status != 'ok':
+        raise RuntimeError('isolated session crashed:\n' + value)
+    return value
+
+
+def shard_sessions(shard, nshards, seed, session_list):
+    """Runs BEFORE the other observers, in workers forked from a parent that has executed no statement on any
+    shell; every session additionally runs in its own forked child (see `isolated`)."""
+    _set_nullvalues(seed)
+    acc = Acc()
+    for i, (prefix, steps) in enumerate(session_list):
+        if not mine(i, shard, nshards):
+            continue
+        nsteps, found, outs = isolated(run_session, prefix, steps)
+        acc.count('sessions')
+        acc.count('session_steps', nsteps)
+        acc.count('transitions', nsteps)
+        acc.add('session-outcomes', (tuple(e[1] for e in steps), tuple(outs)))
+        for ev, o in zip(steps, outs):
+            acc.add('outcomes', (ev[1], o, '', None))
+        for k, fp, msg in found:
+            lines = [h[1] for h in prefix] + [e[1] for e in steps[:k]]
+            report(acc, fp, (-1, len(prefix) + k, i), f'in one session, after {lines!r}: {msg}',
+                   {'part': 'session', 'seed': seed, 'prefix': _lst(prefix), 'steps': _lst(steps[:k + 1])})
+    flush_reports(acc)
+    return acc
 
 
 def shard_observers(shard, nshards, seed, states, canons, cheap, costly, costly_states, cli_cases, tmpdir):
@@ -1081,8 +1225,15 @@ def replay(case):
             shutil.rmtree(tmpdir, ignore_errors=True)
         return [Violation(fp, msg, case) for fp, msg in problems]
     _set_nullvalues(case.get('seed', 0))
+    if case.get('part') == 'session':
+        prefix = [_tup(h) for h in case['prefix']]
+        steps = [_tup(h) for h in case['steps']]
+        _, found, _ = run_session(prefix, steps)
+        return [Violation(fp, f'in one session, after {[h[1] for h in prefix] + [e[1] for e in steps[:k]]!r}: {msg}', case)
+                for k, fp, msg in found]
     hist = [_tup(h) for h in case['history']]
     ev = _tup(case['event'])
+    prime([ev])
     _, problems = run_case(hist, ev)
     return [Violation(fp, f'after {[h[1] for h in hist]!r}: {msg}', case) for fp, msg in problems]
 
@@ -1100,7 +1251,7 @@ def run(ctx):
     for _, texts in NAMED.values():
         for t in texts:
             w.result(t)
-    for t in list(NAMED_PLAIN.values()) + list(NAMED_OVERRIDDEN.values()) + [o for v in STMT_NOT.values() for _, o in v]:
+    for t in list(NAMED_PLAIN.values()) + list(NAMED_OVERRIDDEN.values()) + list(NAMED_OTHER_DATE.values()) + [o for v in STMT_NOT.values() for _, o in v]:
         w.result(t)
     for ev in cheap_events(seed):
         if ev[0] == 'error' and ev[3] is not None:
@@ -1121,6 +1272,8 @@ def run(ctx):
     for text, others in STMT_NOT.items():
         close_matters['typed: ' + text] = all(isinstance(w.render(text, initial), str)
                                               and w.render(text, initial) != w.render(o, initial) for _, o in others)
+    twins = [w.render(_TWIN % c, initial) for c in ("", " CLOSE ON 2020-01-31", " CLOSE ON 2020-02-29")]
+    close_matters['twin-a / twin-b / typed all differ'] = len(set(twins)) == 3 and all(isinstance(t, str) for t in twins)
     if not all(v for k, v in close_matters.items() if k != 'bal'):
         raise AssertionError(f'the ledger does not distinguish the CLOSE readings: {close_matters}')
 
@@ -1145,6 +1298,9 @@ def run(ctx):
     near = [i for i, h in enumerate(states) if len(h) <= 2]
     costly_states = near if ctx.quick else list(range(len(states)))
     cases = cli_cases()
+    session_list = sessions(ctx.thorough)
+    # Part 4 first: its workers fork from this process, which has run no statement on any shell yet
+    acc4 = run_shards(shard_sessions, ctx.jobs, seed, session_list, nshards=max(ctx.jobs, 1))
     tmpdir = tempfile.mkdtemp(prefix='c19-')
     try:
         write_ledgers(tmpdir)
@@ -1152,7 +1308,9 @@ def run(ctx):
                          nshards=max(ctx.jobs, 1) * 4)
     finally:
         shutil.rmtree(tmpdir, ignore_errors=True)
+    acc.merge(acc4)
     witnesses = {}
+    # session witnesses (rank -1) come first: they are self-contained whatever process-global state leaks
     for fp, rank, what, case in sorted(acc.sets.pop('violation-witnesses', ())):
         witnesses.setdefault(fp, []).append(Violation(fp, what, json.loads(case)))
     for fp, vs in witnesses.items():
@@ -1170,7 +1328,7 @@ def run(ctx):
                   and len(acc.sets['states-observed']) == len(states))
     exhaustive = bool(closed and len(acc.sets['states-observed']) == len(states)
                       and len(acc.sets['states-with-statements']) == len(costly_states)
-                      and acc.n['cli_cases'] == len(cases))
+                      and acc.n['cli_cases'] == len(cases) and acc.n['sessions'] == len(session_list))
     samples = [{'history': [h[1] for h in hist], 'note': 'BFS history (shortest) of one canonical state'}
                for hist in st.sample_histories[:3]]
     samples += acc.samples[:4]
@@ -1204,6 +1362,10 @@ def run(ctx):
         'observer_transitions': {'cheap': acc.n['cheap'], 'costly': acc.n['costly']},
         'states_observed': len(acc.sets['states-observed']),
         'cli_cases': acc.n['cli_cases'],
+        'session_histories': {'sessions': acc.n['sessions'], 'steps_compared': acc.n['session_steps'],
+                              'alphabet': [e[1] for e in session_events()], 'max_length': 3,
+                              'settings_prefixes': sorted({' ; '.join(h[1] for h in pre) for pre, _ in session_list}),
+                              'distinct_output_sequences': len(acc.sets['session-outcomes'])},
         'distinct_outputs_seen': len(acc.sets['outcomes']),
         'distinct_outputs_per_statement': per_stmt,
         'null_cells_in_reference_results': null_cells,
